@@ -38,6 +38,10 @@ RULES = {
     "W6": R3.rule_W6,
     "W7": R3.rule_W7,
     "W8": R3.rule_W8,
+    "G9": R3.rule_G9,
+    "A15": R3.rule_A15,
+    "D13": R3.rule_D13,
+    "G8": R3.rule_G8,
     "T20": R3.rule_T20,
     "D12": R3.rule_D12,
     "W9": R3.rule_W9,
@@ -86,6 +90,7 @@ RULES = {
     "G4": S.rule_G4,
     "G1c": G.rule_G1c,
     "G1r": G.rule_G1r,
+    "G1l": G.rule_G1l,
     "G2c": G.rule_G2c,
     "G2r": G.rule_G2r,
     "N1": N.rule_N1,
@@ -95,7 +100,7 @@ RULES = {
 
 PROPS = {
     "C01": {
-        "rules": ["T1", "T2", "A5", "T9p", "T12", "D6", "W2", "T4", "T6", "N7", "D11", "A4"],
+        "rules": ["T1", "T2", "A5", "T9p", "T12", "D6", "W2", "T4", "T6", "N7", "D11", "A4", "A15"],
         "claim": "Decides the wiring clauses of C01, not the computed values: every operator spelling is wired, through the "
         "five tables lexer -> get_definition -> handle_parse_node -> execute_current_instruction -> perform_*, to the "
         "public runtime function and GarnishNumber method the language table gives it; the three dispatch matches "
@@ -103,7 +108,7 @@ PROPS = {
         "(A5: at the host boundary left = popped second; T9p: the builder emits every binary construct left operand first, the two "
         "reviewed right-first constructs Pair and ApplyTo having a runtime reader that takes its first pop as the left value); and every child build node inherits its parent's containing-expression entry, only a "
         "nested expression body and the tree root starting a new one (T12: a reapply re-enters the expression it is written in); and a call "
-        "returns into its caller's frame (D6: push_frame / pop_frame of BasicGarnishData encode and decode the frame chain inversely). Also (W2): a number stored by a program reads back as that number - the hash that alone keys SimpleGarnishData's constant table keeps Integer and Float apart. Also, as necessary conditions on what the operators compute: (T4) the logical instructions && || ^^ !! ?? classify every value type with exactly {False, Unit} false and leave a boolean, (T6) the four ordering instructions agree with the comparison table, (N7) no arithmetic method answers 'no result' because an intermediate step of a different operation overflowed. And (D11) each operand's build node sits at its own slot. And (A4) identifier lookup consults the input value - whatever its type - before the host.",
+        "returns into its caller's frame (D6: push_frame / pop_frame of BasicGarnishData encode and decode the frame chain inversely). Also (W2): a number stored by a program reads back as that number - the hash that alone keys SimpleGarnishData's constant table keeps Integer and Float apart. Also, as necessary conditions on what the operators compute: (T4) the logical instructions && || ^^ !! ?? classify every value type with exactly {False, Unit} false and leave a boolean, (T6) the four ordering instructions agree with the comparison table, (N7) no arithmetic method answers 'no result' because an intermediate step of a different operation overflowed. And (D11) each operand's build node sits at its own slot. And (A4) identifier lookup consults the input value - whatever its type - before the host. And (A15) sub-expression sequencing always hands the step's value on as the next input.",
     },
     "C02": {
         "rules": ["T3", "T13", "T17", "T18", "T19"],
@@ -147,13 +152,13 @@ PROPS = {
         "blank-line grouping are value-dependent and not decided. Also (D8): the column counters, which count characters, never receive a UTF-8 byte length (origin analysis of every store into the column fields). Also (A14): the block that ends a token resets, together with state / buffer / type, every counter and flag the consumer both sets to a constant and changes while reading a token - nothing of one token's bookkeeping carries into the next.",
     },
     "C14": {
-        "rules": ["D1", "D5", "W2", "N5", "D1c", "D10", "D12", "A14"],
+        "rules": ["D1", "D5", "W2", "N5", "D1c", "D10", "D12", "A14", "D13"],
         "claim": "Decides the bytes-vs-characters clause of C14 over the data crate: no UTF-8 byte length (str::len / String::len) reaches a "
         "character-count sink (take/skip/nth on chars(), a CharList(n) header, the result of get_char_list_len), and the literal parsers "
         "contain no truncating char->u8 cast; (D5) an escape accumulator that has been decoded is emptied before it accumulates the next "
         "escape, on every path of the literal parsers (typestate over their MIR); (W2) a number literal is stored as the number it spells: the "
         "hash that alone keys SimpleGarnishData's constant table separates every two numbers the type distinguishes (so `5.0` after `5` is not "
-        "handed the Integer's address). Radix parsing and round-trips are value-level and not decided. Also (N5): the literal parsers hand a parsed integer to the number type only through a conversion whose From impl does not narrow with an `as` cast (an integer literal outside i32 becomes a float, it does not wrap). A CharList(n) header written before a run of Char cells counts the very string whose characters are written (D1c). Also (D10, character accounting in the literal parsers): every iteration of a loop over a literal's characters appends to the output, changes the parser's state, fails or stops; the only documented drops (the brace of a \\u{..} escape, raw line feeds / tabs laying out a single-quoted text) are counted per function, so a byte-list or char-list literal cannot silently lose characters it spells. Also (D12): the builder hands the data object's parse_add_* the literal / symbol token's own text, at most cut at its ends - never filtered or rebuilt - so 'a symbol keeps the name it was written with'. Also (A14): the quote counters of one quoted literal are reset when its token ends, so the next literal's closing quotes are counted from zero.",
+        "handed the Integer's address). Radix parsing and round-trips are value-level and not decided. Also (N5): the literal parsers hand a parsed integer to the number type only through a conversion whose From impl does not narrow with an `as` cast (an integer literal outside i32 becomes a float, it does not wrap). A CharList(n) header written before a run of Char cells counts the very string whose characters are written (D1c). Also (D10, character accounting in the literal parsers): every iteration of a loop over a literal's characters appends to the output, changes the parser's state, fails or stops; the only documented drops (the brace of a \\u{..} escape, raw line feeds / tabs laying out a single-quoted text) are counted per function, so a byte-list or char-list literal cannot silently lose characters it spells. Also (D12): the builder hands the data object's parse_add_* the literal / symbol token's own text, at most cut at its ends - never filtered or rebuilt - so 'a symbol keeps the name it was written with'. Also (A14): the quote counters of one quoted literal are reset when its token ends, so the next literal's closing quotes are counted from zero. Also (D13): per GarnishDataFactory method the two factories derive what they return from the same sources (the same shared parser), so a literal denotes the same value on both data implementations.",
     },
     "C15": {
         "rules": ["D2", "D3", "W1", "W2", "D3b", "W6", "W7", "W8", "D1", "D1c", "W9"],
@@ -167,32 +172,32 @@ PROPS = {
         "Correctness for every interleaving/growth policy is not decided. Also (D3b): every returning path through reallocate_heap that installs new extents for one block installs them for all six (no shortcut that moves some blocks only). The same (W6) under this property: a returned address is an address written. Also (W7): a block's cursor never passes its size (by-one advance under that block's capacity test, by-n advance under a fit test), so a later push cannot land in the neighbouring table's cells. Also (W8): the constant table of SimpleGarnishData is written only together with the push of the value it names ('an equal constant returns the same address, a different constant a different address' needs every entry to name a cell holding the hashed value). Also (D1 / D1c): the CharList(n) header BasicGarnishData writes counts characters, of the very string whose characters follow it - a header that claims more cells than were written makes the value absorb whatever is pushed next. Also (W9): the SimpleGarnishData methods that add a constant (numbers, characters, bytes, symbols, types, expressions, externals, text and byte-list literals) return the address the interning function returned on every path, so adding an equal constant again returns the same address.",
     },
     "C16": {
-        "rules": ["G4", "T14", "D9", "G4c", "G7", "A13"],
+        "rules": ["G4", "T14", "D9", "G4c", "G7", "A13", "G8", "G1l"],
         "claim": "Decides the 'absent is not an error' clause of C16: inside both implementations of get_list_item / "
         "get_list_item_with_symbol / get_list_len / get_list_item_iter, their list helpers, and the runtime's index_list / "
         "access_with_symbol, the locally constructed errors are exactly the reviewed ones (not-a-list, corrupt cell); any other "
         "constructed error - in particular one that depends on the index value or the item kind - is reported; and every "
         "match-based comparator the data crate hands to a sort or binary search (the association slots of a list, the two symbol "
         "tables) is antisymmetric: mirrored arguments get opposite orderings (T14) - a necessary condition for the sorted prefix the "
-        "key lookup searches. Order, length and that every present key is found are not decided beyond that. Also: match-based sort comparators order two keyed cells ascending by their first payload field, the key the binary search compares (T14); the end handed to Extents::new is a length / exclusive bound, never `len - 1` (D9). A function that hands a caller-supplied number to the data's get_*_item tests it against zero first (G4c, sibling agreement of the four index_* functions) - the data impls clamp a negative number to index 0. Also (G7): wherever a concatenation is taken apart by hand (get_concatenation destructured into two used operands) both operands get the same treatment - neither side is read as a single item while the other is walked on - so look-ups and indexing see the items of a concatenation nested on either side. Also (A13): between start_list and end_list nothing is called that may itself start a list on a data object (SimpleGarnishData builds one list at a time), so a list with an item that needs building - a nested list being copied - keeps its own items in order.",
+        "key lookup searches. Order, length and that every present key is found are not decided beyond that. Also: match-based sort comparators order two keyed cells ascending by their first payload field, the key the binary search compares (T14); the end handed to Extents::new is a length / exclusive bound, never `len - 1` (D9). A function that hands a caller-supplied number to the data's get_*_item tests it against zero first (G4c, sibling agreement of the four index_* functions) - the data impls clamp a negative number to index 0. Also (G7): wherever a concatenation is taken apart by hand (get_concatenation destructured into two used operands) both operands get the same treatment - neither side is read as a single item while the other is walked on - so look-ups and indexing see the items of a concatenation nested on either side. Also (A13): between start_list and end_list nothing is called that may itself start a list on a data object (SimpleGarnishData builds one list at a time), so a list with an item that needs building - a nested list being copied - keeps its own items in order. And (G8) the walk over a concatenation re-enters for nested concatenations only. Also (G1l): no recursive call cycle runs through the runtime's list look-up functions - a key is looked for among the items of the list (and of the lists a concatenation is made of), not inside items that happen to be collections themselves.",
     },
     "C11": {
-        "rules": ["T5", "D1", "T15", "W4", "A11", "W2"],
+        "rules": ["T5", "D1", "T15", "W4", "A11", "W2", "G8"],
         "claim": "Decides the dispatch clauses of C11: the (type, type) dispatch of data_equal (outer match and the nested slice x slice "
         "match) is symmetric, its catch-all is the constant false, mirrored arms hand the same value roles and typed accessors to the "
         "same helper, and `!=` pushes the negation of the routine `==` pushes; the length that decides 'a single character equals the "
         "one-element list of it' is a character count, never a byte length (D1); the element-wise walk of two sequences loses no element: "
         "no iterator is consulted again (to decide which operand is longer) after a lossy adaptor - zip, take_while, map_while - ran over a "
         "borrow of it, so an operand exactly one element longer is never taken for equal (T15). Reflexivity/transitivity and element-wise "
-        "meaning depend on iterator contents and are not decided. Also (W4): the walk that flattens a concatenation into its item sequence expands every node it meets, without a visited set - a shared sub-sequence counts as often as it is referenced, which structural equality needs. Arms of the equality dispatch that queue component pairs queue them unconditionally (T5 conditional-queue) - no shortcut from the components' types around the dispatch that knows the cross-type equalities; the equality work list itself drains to its mark (A11). Also (W2): values are compared through their addresses' contents, and SimpleGarnishData hands equal-hash constants the same address - the hash that alone keys that table is computed from a loss-free encoding of the whole value, so two different numbers are never conflated into one cell (which would make `==` true for them).",
+        "meaning depend on iterator contents and are not decided. Also (W4): the walk that flattens a concatenation into its item sequence expands every node it meets, without a visited set - a shared sub-sequence counts as often as it is referenced, which structural equality needs. Arms of the equality dispatch that queue component pairs queue them unconditionally (T5 conditional-queue) - no shortcut from the components' types around the dispatch that knows the cross-type equalities; the equality work list itself drains to its mark (A11). Also (W2): values are compared through their addresses' contents, and SimpleGarnishData hands equal-hash constants the same address - the hash that alone keys that table is computed from a loss-free encoding of the whole value, so two different numbers are never conflated into one cell (which would make `==` true for them). Also (G8): lists and concatenations are compared as the flat sequences of their items ONE level deep - in every work-list walk over a concatenation only the Concatenation arm queues onto the work list, so a list that is an item of a list stays one value.",
     },
     "C19": {
-        "rules": ["T8", "W1", "D2"],
+        "rules": ["T8", "W1", "D2", "G9"],
         "claim": "Decides the agreement clauses of C19: for each of the 37 BasicData variants the reference fields followed by the "
         "reachability pass (create_index_stack) equal those remapped by the copy pass (clone_index_stack) equal "
         "spec/basicdata_refs.json, rebuilt values keep their field positions, both per-variant matches have no catch-all, every root "
         "kind (symbol table, register, value, frame, extra) is traced, remapped and written back, and only the compactor and the "
-        "store primitives rewrite cells (W1). Structural identity after compaction is not decided. Also (D2): the compaction's look-ups slice the raw heap only with rebased bounds (must-analysis: both bounds of a slice, every definition of a local, every call site of a parameter) - the root look-ups of optimize() must not reach cells in front of the index list.",
+        "store primitives rewrite cells (W1). Structural identity after compaction is not decided. Also (D2): the compaction's look-ups slice the raw heap only with rebased bounds (must-analysis: both bounds of a slice, every definition of a local, every call site of a parameter) - the root look-ups of optimize() must not reach cells in front of the index list. Also (G9): the reachability and copy passes construct only the reviewed errors (corrupt cell, iteration limit, unmapped address), each at most as often as reviewed - no further reason to refuse data that must be preserved.",
     },
     "C04": {
         "rules": ["T10", "A2", "G5", "T18", "D11", "D7"],
@@ -218,14 +223,14 @@ PROPS = {
         "instruction it should point at. Root-stack exhaustion depends on program shape and is not decided. Also (G5): build() rejects every parse result in which a node is reachable twice - the validating walk has no iteration path that neither marks the node nor fails - so no node is built under two parents (the second build state would overwrite the first and leave its reserved jump-table entry unpatched). And (T20) the emitted stream is read back only by the root-closing code.",
     },
     "C20": {
-        "rules": ["D4", "W1", "W3", "W2", "W8", "W6"],
+        "rules": ["D4", "W1", "W3", "W2", "W8", "W6", "T11"],
         "claim": "Decides the index-provenance clause of C20: every index a build emits or reports (jump operands, expression values, the "
         "entry index, jump-table entries) originates from the data object's current table lengths or from its own add_* results, never "
         "from a literal or an absolute position (D4), and build mutates earlier state only through get_from_jump_table_mut on its own "
         "placeholders (W1); a constant built into a shared data object starts from an empty accumulator: every function that starts a "
         "string / byte-list / list accumulation stores a fresh Some(collection) on every path, never conditionally on what an earlier, "
         "possibly aborted, accumulation left in the field (W3, must-pass-through on the MIR CFG). That each program computes the same result "
-        "as when built alone is not decided. Also (W2): the hash that alone keys SimpleGarnishData's constant table separates every two numbers the type distinguishes (per-variant feeds or the discriminant), so a later program's literal cannot be handed an earlier program's different constant. Also (W8): SimpleGarnishData's constant table (hash -> address) is written only by the function that pushes the hashed value and records the address it was pushed at, so a program built later into the object (or into a clone of it) is never handed a cell that holds a different constant. Also (W6): BasicGarnishData's add_* / parse_add_* return the address a store primitive returned for the value it wrote, never one computed from stored indices - so a program built into an object with history (after an optimize, or with host-registered names) gets operands that name its own values.",
+        "as when built alone is not decided. Also (W2): the hash that alone keys SimpleGarnishData's constant table separates every two numbers the type distinguishes (per-variant feeds or the discriminant), so a later program's literal cannot be handed an earlier program's different constant. Also (W8): SimpleGarnishData's constant table (hash -> address) is written only by the function that pushes the hashed value and records the address it was pushed at, so a program built later into the object (or into a clone of it) is never handed a cell that holds a different constant. Also (W6): BasicGarnishData's add_* / parse_add_* return the address a store primitive returned for the value it wrote, never one computed from stored indices - so a program built into an object with history (after an optimize, or with host-registered names) gets operands that name its own values. Also (T11): the scan that keeps a root's end instruction when a join point follows it enumerates exactly this build's jump-table entries (from the table length at the start of the build to the length now), so a program built into a shared object ends its roots as it does alone.",
     },
     "C06": {
         "rules": ["A1", "A6", "D6", "T8", "A11", "D7", "T11"],
@@ -262,12 +267,12 @@ PROPS = {
         "re-joins after the out-of-line operand / arm is always emitted. Order and at-most-one-arm in else-chains are not decided. The Tis that makes the out-of-line right operand of && / || a boolean is added on every path (must-pass-through before the right root is constructed), never 'unless the operand is already boolean'. Also (T20): no handler of the builder decides what to emit from the instruction it reads back from the linear stream (the only reader is the root-closing code), so a `??` / `!!` / logical result is classified on every path that reaches it, not only on the fall-through path.",
     },
     "C17": {
-        "rules": ["A4", "A1", "T2", "T10", "W5", "W6", "A12", "D12"],
+        "rules": ["A4", "A1", "T2", "T10", "W5", "W6", "A12", "D12", "A15"],
         "claim": "Decides the per-occurrence clauses of C17: in `resolve` the host callback is reached only on paths where the input-value "
         "lookup pushed nothing, at most once, with the symbol stored at the instruction's own operand, and a declining host leaves "
         "exactly one unit (A4 + A1); in apply the host's apply callback receives the external's number and the right operand, once; "
         "identifiers are compiled to Resolve carrying the symbol of their own text and properties to Put (T2 wiring, T10 attribution). "
-        "Counts and order across a whole program are not decided. Also (W5): every function that builds a SimpleGarnishData from another one carries over each function-pointer field (resolver, op handler), so the documented callbacks still fire on a clone. BasicGarnishData's add_* / parse_add_* return the address a store primitive returned for the value they wrote, never an address computed from stored indices (W6) - the operand of the Resolve the builder emits must stay a symbol. Also (A12): both data implementations hand the host's answer to the runtime unchanged - resolve / apply / defer_op return the callback's own result (or false when no host is consulted), never a value recomputed from the object's state. Also (D12): the symbol the builder asks the data object to resolve is parsed from the identifier token's own text, at most cut at its ends (back ticks trimmed) - so the host's resolve callback is asked about the symbol of the identifier that was written.",
+        "Counts and order across a whole program are not decided. Also (W5): every function that builds a SimpleGarnishData from another one carries over each function-pointer field (resolver, op handler), so the documented callbacks still fire on a clone. BasicGarnishData's add_* / parse_add_* return the address a store primitive returned for the value they wrote, never an address computed from stored indices (W6) - the operand of the Resolve the builder emits must stay a symbol. Also (A12): both data implementations hand the host's answer to the runtime unchanged - resolve / apply / defer_op return the callback's own result (or false when no host is consulted), never a value recomputed from the object's state. Also (D12): the symbol the builder asks the data object to resolve is parsed from the identifier token's own text, at most cut at its ends (back ticks trimmed) - so the host's resolve callback is asked about the symbol of the identifier that was written. Also (A15): every Ok path of the UpdateValue handler stores the finished step's value into the current input value, so 'looked up first in the current input value' means the value of the step just before.",
     },
     "C09": {
         "rules": ["N1", "N2", "N3", "W2", "N6", "N7", "N8"],
